@@ -521,6 +521,34 @@ template <typename T, typename C, typename Mk, typename MkMpi> Sx run_ops(Spec<T
     return out;
 }
 
+// integrands are built the way users build them: through the make_* factories, from named (lvalue) distribution
+// parameters, anew for every run operation (up to three distributions; more go through the class constructor)
+template <typename T> hep::integrand<T, Integrand<T>, true> mk_int1(Spec<T>& sp)
+{
+    auto& d = sp.dists;
+    switch (d.size())
+    {
+    case 1: return hep::make_integrand<T>(sp.f, sp.dims, d[0]);
+    case 2: return hep::make_integrand<T>(sp.f, sp.dims, d[0], d[1]);
+    case 3: return hep::make_integrand<T>(sp.f, sp.dims, d[0], d[1], d[2]);
+    default: return hep::integrand<T, Integrand<T>, true>(sp.f, sp.dims, d);
+    }
+}
+template <typename T> hep::integrand<T, Integrand<T>, false> mk_int0(Spec<T>& sp) { return hep::make_integrand<T>(sp.f, sp.dims); }
+template <typename T> hep::multi_channel_integrand<T, Integrand<T>, Map<T>, true> mk_mc1(Spec<T>& sp)
+{
+    auto& d = sp.dists;
+    switch (d.size())
+    {
+    case 1: return hep::make_multi_channel_integrand<T>(sp.f, sp.dims, sp.map, sp.mapdims, sp.channels, d[0]);
+    case 2: return hep::make_multi_channel_integrand<T>(sp.f, sp.dims, sp.map, sp.mapdims, sp.channels, d[0], d[1]);
+    case 3: return hep::make_multi_channel_integrand<T>(sp.f, sp.dims, sp.map, sp.mapdims, sp.channels, d[0], d[1], d[2]);
+    default: return hep::multi_channel_integrand<T, Integrand<T>, Map<T>, true>(sp.f, sp.dims, sp.map, sp.mapdims, sp.channels, d);
+    }
+}
+template <typename T> hep::multi_channel_integrand<T, Integrand<T>, Map<T>, false> mk_mc0(Spec<T>& sp)
+{ return hep::make_multi_channel_integrand<T>(sp.f, sp.dims, sp.map, sp.mapdims, sp.channels); }
+
 template <typename T> Sx run_case(std::string const& cmd, Sx const& a)
 {
     if (cmd != "run") return Sx::list({Sx::sym("unknown_command"), Sx::sym(cmd)});
@@ -585,17 +613,15 @@ template <typename T> Sx run_case(std::string const& cmd, Sx const& a)
         C chk = hep::make_plain_chkpt<T, script_engine>(script_engine(pos0));
         BuiltinCb<C> bcb{hep::callback<C>(modes[sp.mode & 3], sp.filename, sp.target), sp.mode, sp.filename, sp.keepfile}; ScriptCb<C> scb{sp.script};
         BuiltinCb<C, hep::plain_chkpt<T>> bbb{hep::callback<hep::plain_chkpt<T>>(modes[sp.mode & 3], sp.filename, sp.target), sp.mode, sp.filename, sp.keepfile};
-        hep::integrand<T, Integrand<T>, true> i1(sp.f, sp.dims, sp.dists);
-        hep::integrand<T, Integrand<T>, false> i0(sp.f, sp.dims, sp.dists);
         result = run_ops<T>(sp, ops, chk, [&](std::vector<std::size_t> const& calls, C const& c) {
+            auto i1 = mk_int1<T>(sp); auto i0 = mk_int0<T>(sp);
             if (sp.builtin && sp.cbbase) return with_dists ? hep::plain(i1, calls, c, bbb) : hep::plain(i0, calls, c, bbb);
             if (with_dists) return sp.builtin ? hep::plain(i1, calls, c, bcb) : hep::plain(i1, calls, c, scb);
             return sp.builtin ? hep::plain(i0, calls, c, bcb) : hep::plain(i0, calls, c, scb); },
             [&](Spec<T>& my, std::vector<std::size_t> const& calls, C const& c) {
 #ifdef VERIF_MPI
             MpiBuiltinCb<C> mb{hep::mpi_callback<C>(modes[my.mode & 3], my.filename, my.target)}; MpiScriptCb<C> ms{my.script};
-            hep::integrand<T, Integrand<T>, true> j1(my.f, my.dims, my.dists);
-            hep::integrand<T, Integrand<T>, false> j0(my.f, my.dims, my.dists);
+            auto j1 = mk_int1<T>(my); auto j0 = mk_int0<T>(my);
             if (with_dists) return my.builtin ? hep::mpi_plain(MPI_COMM_WORLD, j1, calls, c, mb) : hep::mpi_plain(MPI_COMM_WORLD, j1, calls, c, ms);
             return my.builtin ? hep::mpi_plain(MPI_COMM_WORLD, j0, calls, c, mb) : hep::mpi_plain(MPI_COMM_WORLD, j0, calls, c, ms);
 #else
@@ -611,17 +637,15 @@ template <typename T> Sx run_case(std::string const& cmd, Sx const& a)
             : hep::make_vegas_chkpt<T, script_engine>(static_cast<std::size_t>(ck.at(1).N_()), static_cast<T>(ck.at(2).F_()), script_engine(pos0));
         BuiltinCb<C> bcb{hep::callback<C>(modes[sp.mode & 3], sp.filename, sp.target), sp.mode, sp.filename, sp.keepfile}; ScriptCb<C> scb{sp.script};
         BuiltinCb<C, hep::vegas_chkpt<T>> bbb{hep::callback<hep::vegas_chkpt<T>>(modes[sp.mode & 3], sp.filename, sp.target), sp.mode, sp.filename, sp.keepfile};
-        hep::integrand<T, Integrand<T>, true> i1(sp.f, sp.dims, sp.dists);
-        hep::integrand<T, Integrand<T>, false> i0(sp.f, sp.dims, sp.dists);
         result = run_ops<T>(sp, ops, chk, [&](std::vector<std::size_t> const& calls, C const& c) {
+            auto i1 = mk_int1<T>(sp); auto i0 = mk_int0<T>(sp);
             if (sp.builtin && sp.cbbase) return with_dists ? hep::vegas(i1, calls, c, bbb) : hep::vegas(i0, calls, c, bbb);
             if (with_dists) return sp.builtin ? hep::vegas(i1, calls, c, bcb) : hep::vegas(i1, calls, c, scb);
             return sp.builtin ? hep::vegas(i0, calls, c, bcb) : hep::vegas(i0, calls, c, scb); },
             [&](Spec<T>& my, std::vector<std::size_t> const& calls, C const& c) {
 #ifdef VERIF_MPI
             MpiBuiltinCb<C> mb{hep::mpi_callback<C>(modes[my.mode & 3], my.filename, my.target)}; MpiScriptCb<C> ms{my.script};
-            hep::integrand<T, Integrand<T>, true> j1(my.f, my.dims, my.dists);
-            hep::integrand<T, Integrand<T>, false> j0(my.f, my.dims, my.dists);
+            auto j1 = mk_int1<T>(my); auto j0 = mk_int0<T>(my);
             if (with_dists) return my.builtin ? hep::mpi_vegas(MPI_COMM_WORLD, j1, calls, c, mb) : hep::mpi_vegas(MPI_COMM_WORLD, j1, calls, c, ms);
             return my.builtin ? hep::mpi_vegas(MPI_COMM_WORLD, j0, calls, c, mb) : hep::mpi_vegas(MPI_COMM_WORLD, j0, calls, c, ms);
 #else
@@ -637,17 +661,15 @@ template <typename T> Sx run_case(std::string const& cmd, Sx const& a)
             : hep::make_multi_channel_chkpt<T, script_engine>(static_cast<T>(ck.at(1).F_()), static_cast<T>(ck.at(2).F_()), script_engine(pos0));
         BuiltinCb<C> bcb{hep::callback<C>(modes[sp.mode & 3], sp.filename, sp.target), sp.mode, sp.filename, sp.keepfile}; ScriptCb<C> scb{sp.script};
         BuiltinCb<C, hep::multi_channel_chkpt<T>> bbb{hep::callback<hep::multi_channel_chkpt<T>>(modes[sp.mode & 3], sp.filename, sp.target), sp.mode, sp.filename, sp.keepfile};
-        hep::multi_channel_integrand<T, Integrand<T>, Map<T>, true> i1(sp.f, sp.dims, sp.map, sp.mapdims, sp.channels, sp.dists);
-        hep::multi_channel_integrand<T, Integrand<T>, Map<T>, false> i0(sp.f, sp.dims, sp.map, sp.mapdims, sp.channels, sp.dists);
         result = run_ops<T>(sp, ops, chk, [&](std::vector<std::size_t> const& calls, C const& c) {
+            auto i1 = mk_mc1<T>(sp); auto i0 = mk_mc0<T>(sp);
             if (sp.builtin && sp.cbbase) return with_dists ? hep::multi_channel(i1, calls, c, bbb) : hep::multi_channel(i0, calls, c, bbb);
             if (with_dists) return sp.builtin ? hep::multi_channel(i1, calls, c, bcb) : hep::multi_channel(i1, calls, c, scb);
             return sp.builtin ? hep::multi_channel(i0, calls, c, bcb) : hep::multi_channel(i0, calls, c, scb); },
             [&](Spec<T>& my, std::vector<std::size_t> const& calls, C const& c) {
 #ifdef VERIF_MPI
             MpiBuiltinCb<C> mb{hep::mpi_callback<C>(modes[my.mode & 3], my.filename, my.target)}; MpiScriptCb<C> ms{my.script};
-            hep::multi_channel_integrand<T, Integrand<T>, Map<T>, true> j1(my.f, my.dims, my.map, my.mapdims, my.channels, my.dists);
-            hep::multi_channel_integrand<T, Integrand<T>, Map<T>, false> j0(my.f, my.dims, my.map, my.mapdims, my.channels, my.dists);
+            auto j1 = mk_mc1<T>(my); auto j0 = mk_mc0<T>(my);
             if (with_dists) return my.builtin ? hep::mpi_multi_channel(MPI_COMM_WORLD, j1, calls, c, mb) : hep::mpi_multi_channel(MPI_COMM_WORLD, j1, calls, c, ms);
             return my.builtin ? hep::mpi_multi_channel(MPI_COMM_WORLD, j0, calls, c, mb) : hep::mpi_multi_channel(MPI_COMM_WORLD, j0, calls, c, ms);
 #else
